@@ -84,8 +84,8 @@ def names : E → List Name
 def toPy (B : List Name) (e : E) : E := rename (mangleRef B) e
 
 inductive Variant where
-  | cur      -- the tree as committed: operands pasted without parentheses
-  | fix      -- with proposed fix C24-1
+  | cur      -- before fix C24-1: operands pasted without parentheses
+  | fix      -- the current tree (fix C24-1, commit 36439d5)
 deriving DecidableEq, Repr
 
 def printer : Variant → E → List Tok
@@ -197,7 +197,7 @@ def intAlg : Alg Int where
   fn _ _ := none
   lit _ := none
 
-/-! ## classification (`exitClass`) -/
+/-! ## classification (`exitClass`); `classify` is the code before fix C24-4, `classifyFix` the current one -/
 
 structure Sym where
   name : Name
@@ -232,7 +232,7 @@ def Sym.has (s : Sym) (k : String) : Bool := s.prefixes.contains k
 def Sym.classified (s : Sym) : Bool :=
   s.has "state" || s.has "constant" || s.has "parameter" || s.has "input" || s.has "output"
 
-/-- `exitClass` with proposed fix C24-4: a symbol without any of the five class prefixes
+/-- `exitClass` of the current tree (fix C24-4, commit b72b750): a symbol without any of the five class prefixes
     (no prefix at all, or only prefixes such as `discrete`) is a plain variable. -/
 def classifyFix (syms : List Sym) : Lists :=
   let x := pick "state" syms
